@@ -280,3 +280,25 @@ check("C01", "exploration",
            "helpers' share copies must agree.",
       note="Small scope: <= 3 (4) reports exhaustively, 90-report shape input, <= 3 (5) shards; see the known finding on shards that "
            "run out of rows.")
+
+check("C02", "fault_enumeration",
+      "malicious-mode hybrid_protocol on a 12-report input (3 attributed pairs incl. value and key wrap-around, unmatched reports, a "
+      "triple-free layout), 1 shard (thorough: also with dummy-record padding and on 2 shards): census of every helper-to-helper "
+      "channel (run twice, must agree) - conversion to field shares, DZKP proof/challenge/verification, PRF MAC steps and openings, "
+      "shuffle transfers and hashes, breakdown-key reveals, aggregation, finalize - then one run per (channel, fault); quick: first/middle/last channel of every channel family (gate with numbers abstracted, per sender and receiver), first chunk, "
+      "bit 0 of the first and of the last byte (thorough: every chunk, bytes {all if <= 64, else 0,1,mid,last} x masks {0x01,0x80}, "
+      "zeroed chunk). The channel's sender is the corrupt helper. Oracle: an honest helper fails / never produces output, or both "
+      "honest helpers finish with consistent shares that determine exactly the untampered histogram. "
+      "distinct_nontrivial = faults whose interceptor changed a byte.",
+      [{"name": "tamper", "config": "A", "test": "verif::c02::run", "timeout": {"quick": 1800, "thorough": 14400},
+        "require": {"any": {"tamper_rejected": 100, "channels_in_census": 100}}}],
+      assumptions=["one altered message per run (no adaptive multi-message strategies; those of the MAC layer are in C04)",
+                   "cryptographic acceptance probabilities (2^-32 shuffle MAC, 2^-61 DZKP, 2^-252 Fp25519 MAC) are not explored",
+                   "shard-to-shard channels are inside one helper's trust domain and are not tampered with"],
+      exhaustive=True, engine="E3 fault",
+      technique="channel census + exhaustive single-fault enumeration over every helper-to-helper channel of a real three-helper "
+                "attribution query through the repository's StreamInterceptor, process-isolated runs",
+      text="Each helper-to-helper channel of a complete malicious-mode attribution is corrupted in turn and the outcome of every helper "
+           "future is observed: no run may end with both honest helpers holding an accepted histogram that differs from the "
+           "untampered computation.",
+      note="Quick tier: 2 faults per channel on one 12-report query; thorough: full alphabet, padding on, 2 shards.")
